@@ -317,7 +317,7 @@ def run(tier: str) -> int:
     if tier == "quick":
         body(chk, mc_nodes=3, n_random=1500, deep=3)
     else:
-        body(chk, mc_nodes=4, n_random=20000, deep=4)
+        body(chk, mc_nodes=3, n_random=8000, deep=4)
     chk.cov["exhaustive"] = True
     chk.cov["rule"] = ("every TLC-enumerated page over the asset-carrying library x2 modes, alternating document/fragment and "
                        "placeholder/<head><body> layouts; random programs x random asset assignments (shared files, inheritance, "
